@@ -17,8 +17,12 @@ package observer
 //   ... and every transaction whose namespace and version resolve is handed to it, whatever happened to earlier ones
 //@   loop 1
 //@     invariant nsLookups == old(nsLookups) + _k
+//@     invariant txnProcessed <= old(txnProcessed) + _k
 //@     invariant forall q int :: 0 <= q && q < _k && processable(o, txns[q]) ==> txns[q].AnchorString in procSet
 //@     invariant forall a string :: old(a in procSet) ==> a in procSet
 //@   ensures nsLookups == old(nsLookups) + len(txns)
+//   ... and at most once: a transaction is never handed to the processor a second time (no retry: its operations
+//   would be stored twice)
+//@   ensures txnProcessed <= old(txnProcessed) + len(txns)
 //@   ensures forall q int :: 0 <= q && q < len(txns) && processable(o, txns[q]) ==> txns[q].AnchorString in procSet
 //@   modifies nsLookups, txnProcessed, procSet
